@@ -2090,6 +2090,10 @@ func opcodeCheckMultiSig(op *ParsedOpcode, t *thread) error {
 		return err
 	}
 
+	// a count that does not fit an int32 is out of range whatever its low bits are
+	if numKeys.GreaterThanInt(1<<31-1) || numKeys.LessThanInt(0) {
+		return errs.NewError(errs.ErrInvalidPubKeyCount, "number of pubkeys %s is out of range", numKeys.val.String())
+	}
 	numPubKeys := numKeys.Int()
 	if numPubKeys < 0 {
 		return errs.NewError(errs.ErrInvalidPubKeyCount, "number of pubkeys %d is negative", numPubKeys)
@@ -2127,6 +2131,9 @@ func opcodeCheckMultiSig(op *ParsedOpcode, t *thread) error {
 		return err
 	}
 
+	if numSigs.GreaterThanInt(1<<31-1) || numSigs.LessThanInt(0) {
+		return errs.NewError(errs.ErrInvalidSignatureCount, "number of signatures %s is out of range", numSigs.val.String())
+	}
 	numSignatures := numSigs.Int()
 	if numSignatures < 0 {
 		return errs.NewError(errs.ErrInvalidSignatureCount, "number of signatures %d is negative", numSignatures)
